@@ -294,8 +294,12 @@ where
         let approximate_nbr_frames =
             self.chunk_size as f64 * (0.5 * self.resample_ratio + 0.5 * self.target_ratio);
         let t_ratio_increment = (t_ratio_end - t_ratio) / approximate_nbr_frames;
+        // The step between output frames stays between the start and end values of the ramp:
+        // the margin at the end of the chunk must allow for the largest of them.
+        let t_ratio_min = t_ratio.min(t_ratio_end);
+        let t_ratio_max = t_ratio.max(t_ratio_end);
         let end_idx =
-            self.chunk_size as isize - (POLYNOMIAL_LEN_I + 1) - t_ratio_end.ceil() as isize;
+            self.chunk_size as isize - (POLYNOMIAL_LEN_I + 1) - t_ratio_max.ceil() as isize;
 
         //println!(
         //    "start ratio {}, end_ratio {}, frames {}, t_increment {}",
@@ -312,7 +316,7 @@ where
         match self.interpolation {
             PolynomialDegree::Septic => {
                 while idx < end_idx as f64 {
-                    t_ratio += t_ratio_increment;
+                    t_ratio = (t_ratio + t_ratio_increment).clamp(t_ratio_min, t_ratio_max);
                     idx += t_ratio;
                     let idx_floor = idx.floor();
                     let start_idx = idx_floor as isize - 3;
@@ -337,7 +341,7 @@ where
             }
             PolynomialDegree::Quintic => {
                 while idx < end_idx as f64 {
-                    t_ratio += t_ratio_increment;
+                    t_ratio = (t_ratio + t_ratio_increment).clamp(t_ratio_min, t_ratio_max);
                     idx += t_ratio;
                     let idx_floor = idx.floor();
                     let start_idx = idx_floor as isize - 2;
@@ -362,7 +366,7 @@ where
             }
             PolynomialDegree::Cubic => {
                 while idx < end_idx as f64 {
-                    t_ratio += t_ratio_increment;
+                    t_ratio = (t_ratio + t_ratio_increment).clamp(t_ratio_min, t_ratio_max);
                     idx += t_ratio;
                     let idx_floor = idx.floor();
                     let start_idx = idx_floor as isize - 1;
@@ -387,7 +391,7 @@ where
             }
             PolynomialDegree::Linear => {
                 while idx < end_idx as f64 {
-                    t_ratio += t_ratio_increment;
+                    t_ratio = (t_ratio + t_ratio_increment).clamp(t_ratio_min, t_ratio_max);
                     idx += t_ratio;
                     let idx_floor = idx.floor();
                     let start_idx = idx_floor as isize;
@@ -412,7 +416,7 @@ where
             }
             PolynomialDegree::Nearest => {
                 while idx < end_idx as f64 {
-                    t_ratio += t_ratio_increment;
+                    t_ratio = (t_ratio + t_ratio_increment).clamp(t_ratio_min, t_ratio_max);
                     idx += t_ratio;
                     let start_idx = idx.floor() as isize;
                     for (chan, active) in self.channel_mask.iter().enumerate() {
